@@ -4,6 +4,8 @@
 pub mod access;
 pub mod apps;
 pub mod dp;
+pub mod gap;
+pub mod handover;
 pub mod ring;
 
 use crate::world::World;
@@ -25,6 +27,26 @@ pub fn tol_ticks(w: &World, st: usize, us: u64, interval: u64) -> u64 {
         // the local clock is floor(global * (1 + skew)): one more µs of rounding, plus the drift
         // over the interval the station measured
         t += (u128::from(interval) * skew / 1_000_000) as u64 + w.cfg.baud;
+    }
+    t
+}
+
+/// End (ticks) of the latest transmission before `before_idx` that station `st` could perceive:
+/// not its own, not lost for it, with at least one character delivered.  Bus silence as a
+/// station measures it starts no earlier than this.
+pub fn last_visible_activity(w: &World, bus: &crate::bus::Bus, st: usize, before_idx: usize, at: u64) -> u64 {
+    let node = w.stations[st].node;
+    let mut t = 0u64;
+    for tx in bus.txs[..before_idx].iter().rev().take(24) {
+        let end = if tx.sender == node {
+            tx.end()
+        } else if (tx.lost_for >> node) & 1 == 1 || tx.seen.is_empty() || tx.start + crate::bus::CHAR > at {
+            // lost, swallowed by a collision, or its first character is not complete yet
+            continue;
+        } else {
+            tx.start + tx.seen.len() as u64 * crate::bus::CHAR
+        };
+        t = t.max(end.min(at));
     }
     t
 }
